@@ -230,6 +230,12 @@ func sortModeNames(p *core.Program) map[string]string {
 
 // checkSorting decides comparator and sortedemit for one marshalling function.
 func checkSorting(c *core.Ctx, prefix string, fn *ssa.Function, floorModes []string) {
+	// the map arm of a recursive encoder may be split into stages (collect, sort, emit) of which the last recurses into
+	// the encoder for every value: those stages are expanded too
+	core.WithCycleStages(func() { checkSortingIn(c, prefix, fn, floorModes) })
+}
+
+func checkSortingIn(c *core.Ctx, prefix string, fn *ssa.Function, floorModes []string) {
 	p := c.P
 	key := core.FuncKey(fn)
 	modes := sortModeNames(p)
@@ -251,6 +257,17 @@ func checkSorting(c *core.Ctx, prefix string, fn *ssa.Function, floorModes []str
 			less, _ = mc.Fn.(*ssa.Function)
 		} else if f, ok := cv.Call.Args[1].(*ssa.Function); ok {
 			less = f
+		}
+		// a method value (entries.less): go/ssa wraps it in a synthetic bound-method closure whose body is one call
+		// of the real method
+		for hop := 0; hop < 2 && less != nil && less.Synthetic != ""; hop++ {
+			var inner *ssa.Function
+			for _, ci2 := range core.Calls(less) {
+				if g := ci2.Common().StaticCallee(); g != nil && len(g.Blocks) > 0 {
+					inner = g
+				}
+			}
+			less = inner
 		}
 		sorts = append(sorts, sortCall{cv, less, cv.Call.Args[0]})
 	}
@@ -284,11 +301,13 @@ func checkSorting(c *core.Ctx, prefix string, fn *ssa.Function, floorModes []str
 			continue
 		}
 		sc := reachable[0]
-		if sc.less == nil || len(sc.less.Params) != 2 {
-			c.Undecided(ck, p.Pos(sc.call.Pos()), "less function is not a literal function of two parameters")
+		if sc.less == nil || len(sc.less.Params) < 2 {
+			c.Undecided(ck, p.Pos(sc.call.Pos()), "less function is not a function of two index parameters")
 			continue
 		}
-		ci := &cmpInterp{fn: sc.less, pi: sc.less.Params[0], pj: sc.less.Params[1], bind: map[ssa.Value]ssa.Value{}}
+		// the two index parameters are the last two (a method's receiver comes first)
+		np := len(sc.less.Params)
+		ci := &cmpInterp{fn: sc.less, pi: sc.less.Params[np-2], pj: sc.less.Params[np-1], bind: map[ssa.Value]ssa.Value{}}
 		bad := ""
 		undecided := false
 		for _, st := range feasibleOrd {
@@ -325,18 +344,52 @@ func checkSorting(c *core.Ctx, prefix string, fn *ssa.Function, floorModes []str
 			}
 			// a map key emission: the stored string derives from a MapIterator key or from the collected entries
 			// provenance is judged from the function that emits (its parameters are leaves): in the recursive encoder the
-			// node parameter of marshal is, seen from the entry point, also "something out of a map's entries"
-			rgS := core.RegionOf(st.Parent())
-			isKey := false
-			for w := range core.BackSlice(st.Val, core.SliceOpts{ThroughCalls: true, Stores: true, Region: rgS}) {
-				// result 0 of MapIterator.Next is the key (result 1, the value, may well be a string node emitted elsewhere)
-				if ex, ok := w.(*ssa.Extract); ok && ex.Index == 0 {
-					if cl, ok := ex.Tuple.(*ssa.Call); ok && cl.Call.IsInvoke() && cl.Call.Method.Name() == "Next" && cl.Call.Signature().Results().Len() == 3 {
-						isKey = true
+			// node parameter of marshal is, seen from the entry point, also "something out of a map's entries". When the
+			// emission loop was split off into a stage of its own, the function that calls it (one or two levels up) is
+			// tried too.
+			isKey, fromColl := false, false
+			tried := map[*ssa.Function]bool{}
+			level := []*ssa.Function{st.Parent()}
+			for depth := 0; depth < 3 && !isKey && !fromColl; depth++ {
+				var next []*ssa.Function
+				for _, root := range level {
+					if tried[root] {
+						continue
+					}
+					tried[root] = true
+					rgS := core.RegionOf(root)
+					for w := range core.BackSlice(st.Val, core.SliceOpts{ThroughCalls: true, Stores: true, Region: rgS}) {
+						// result 0 of MapIterator.Next is the key (result 1, the value, may well be a string node emitted elsewhere)
+						if ex, ok := w.(*ssa.Extract); ok && ex.Index == 0 {
+							if cl, ok := ex.Tuple.(*ssa.Call); ok && cl.Call.IsInvoke() && cl.Call.Method.Name() == "Next" && cl.Call.Signature().Results().Len() == 3 {
+								isKey = true
+							}
+						}
+					}
+					if sameBufferR(rgS, st.Val, sc.coll) {
+						fromColl = true
+					}
+					// (never upwards from a function that is handed the node to encode - the recursive encoder function
+					// itself: there the parameters really are leaves)
+					takesNode := false
+					for _, prm := range root.Params {
+						if isNodeType(prm.Type()) {
+							takesNode = true
+						}
+					}
+					if takesNode {
+						continue
+					}
+					for _, g := range core.RegionOf(fn).Fns {
+						for _, ci2 := range core.Calls(g) {
+							if ci2.Common().StaticCallee() == root && g != root {
+								next = append(next, g)
+							}
+						}
 					}
 				}
+				level = next
 			}
-			fromColl := sameBufferR(rgS, st.Val, sc.coll)
 			if !isKey && !fromColl {
 				return
 			}
@@ -1081,10 +1134,17 @@ func runC04(c *core.Ctx) {
 				if core.BlockIf(b) == nil {
 					continue
 				}
-				if r, ok := core.EdgeRel(core.Edge{From: b, Succ: 0}); ok && (r.Op == token.EQL || r.Op == token.NEQ) {
-					for _, pair := range [][2]ssa.Value{{r.X, r.Y}, {r.Y, r.X}} {
-						if s, isS := core.ConstString(pair[0]); isS && isTokStr(pair[1]) {
-							read[s] = true
+				// whatever comparison of a token string with a constant the branch decides on - directly, or through
+				// a named / combined boolean
+				for succ := 0; succ < 2; succ++ {
+					for _, a := range core.ImpliedAtoms(core.Edge{From: b, Succ: succ}) {
+						if a.Rel == nil || (a.Rel.Op != token.EQL && a.Rel.Op != token.NEQ) {
+							continue
+						}
+						for _, pair := range [][2]ssa.Value{{a.Rel.X, a.Rel.Y}, {a.Rel.Y, a.Rel.X}} {
+							if s, isS := core.ConstString(pair[0]); isS && isTokStr(pair[1]) {
+								read[s] = true
+							}
 						}
 					}
 				}
